@@ -5,7 +5,7 @@ CLAIM = ("C06, solver-decidable parts (bounded symbolic execution of the real so
          "parents of that path, outermost first, creating the missing ones with 0755; "
          "(overwrite/options) extract_archived_file extracts an existing file exactly when the decision table (policy, prompt answers y/n/empty/a/s, re-prompt "
          "otherwise) says so, consuming exactly the answer lines; parse_options maps f i n v q[digit] w[=]DIR to the option fields for all option strings up to the bound; "
-         "(dirs) over a catalogue of well-formed 3-member archives and a model filesystem with owner-permission semantics the real reader creates every "
+         "(dirs) over a catalogue of well-formed 3-member archives (nested, sibling, two sub-directories of one parent, look-alike names) and a model filesystem with owner-permission semantics the real reader creates every "
          "directory owner-writable first, writes the children, and applies recorded mode and time afterwards (END_OF_DIR and END_OF_FILE policies), so that "
          "read-only directories still receive their children and keep their recorded time; files get recorded mode and time; "
          "(arch) lha_arch_fopen/mkdir/chmod/chown/utime issue exactly the corresponding libc calls with the recorded values; "
